@@ -20,6 +20,7 @@ import (
 	"os"
 	"os/exec"
 	"path/filepath"
+	"regexp"
 	"runtime"
 	"runtime/debug"
 	"sort"
@@ -64,10 +65,26 @@ type finding struct {
 	Status   string `json:"status"` // "known" or "fixed"
 	Property string `json:"property"`
 	Oracle   string `json:"oracle"`
-	Culprit  string `json:"culprit"`
-	Config   string `json:"config,omitempty"`
-	Commit   string `json:"commit,omitempty"`
-	What     string `json:"what"`
+	// Culprit and Config narrow the match when non-empty.
+	Culprit string `json:"culprit,omitempty"`
+	Config  string `json:"config,omitempty"`
+	// Normalize: the violation matches only if expected and observed become
+	// equal after applying these [from, to] replacements to both (i.e. the
+	// listed difference is the *only* difference).
+	Normalize [][2]string `json:"normalize,omitempty"`
+	// NormalizeRegex: like Normalize with regular expressions.
+	NormalizeRegex [][2]string `json:"normalize_regex,omitempty"`
+	// TreeContains: the violation matches only if the rendered spec of the
+	// run contains every one of these substrings.
+	TreeContains []string `json:"tree_contains,omitempty"`
+	// ObservedContains: the observed value must contain each substring.
+	ObservedContains []string `json:"observed_contains,omitempty"`
+	Commit           string   `json:"commit,omitempty"`
+	What             string   `json:"what"`
+}
+
+func (k *finding) key() string {
+	return k.Property + "|" + k.Oracle + "|" + k.Culprit + "|" + k.Config + "|" + k.What
 }
 
 func loadKnown(path string) ([]finding, error) {
@@ -88,13 +105,72 @@ func loadKnown(path string) ([]finding, error) {
 	return f, nil
 }
 
-func matchKnown(known []finding, v props.Violation) *finding {
+func (k *finding) applies(v props.Violation, tree string) bool {
+	if k.Status != "known" || k.Property != v.Prop || k.Oracle != v.Oracle {
+		return false
+	}
+	if k.Culprit != "" && k.Culprit != v.Culprit {
+		return false
+	}
+	if k.Config != "" && k.Config != v.Config {
+		return false
+	}
+	for _, c := range k.TreeContains {
+		if !strings.Contains(tree, c) {
+			return false
+		}
+	}
+	for _, c := range k.ObservedContains {
+		if !strings.Contains(v.Observed, c) {
+			return false
+		}
+	}
+	return true
+}
+
+func (k *finding) normalize(e, o string) (string, string) {
+	for _, r := range k.Normalize {
+		e = strings.ReplaceAll(e, r[0], r[1])
+		o = strings.ReplaceAll(o, r[0], r[1])
+	}
+	for _, r := range k.NormalizeRegex {
+		re, err := regexp.Compile(r[0])
+		if err != nil {
+			continue
+		}
+		e = re.ReplaceAllString(e, r[1])
+		o = re.ReplaceAllString(o, r[1])
+	}
+	return e, o
+}
+
+// matchKnown returns the listed finding that explains v, if any. A finding
+// with normalisation rules explains v only if its rules make expected and
+// observed equal, i.e. the recorded difference is the only difference. When
+// no single finding does, the rules of all applicable findings are applied
+// together: a value that differs from the expected one by nothing but a
+// combination of recorded differences is explained by those findings.
+func matchKnown(known []finding, v props.Violation, tree string) *finding {
+	var first *finding
+	e, o := v.Expected, v.Observed
 	for i := range known {
 		k := &known[i]
-		if k.Status == "known" && k.Property == v.Prop && k.Oracle == v.Oracle && k.Culprit == v.Culprit &&
-			(k.Config == "" || k.Config == v.Config) {
+		if !k.applies(v, tree) {
+			continue
+		}
+		if len(k.Normalize) == 0 && len(k.NormalizeRegex) == 0 {
 			return k
 		}
+		if e1, o1 := k.normalize(v.Expected, v.Observed); e1 == o1 {
+			return k
+		}
+		if first == nil {
+			first = k
+		}
+		e, o = k.normalize(e, o)
+	}
+	if first != nil && e == o {
+		return first
 	}
 	return nil
 }
@@ -244,8 +320,8 @@ func cmdWorker(args []string) int {
 		}
 		for _, v := range res.Violations {
 			w.RawViol++
-			if k := matchKnown(known, v); k != nil {
-				w.KnownHits[k.Property+"|"+k.Oracle+"|"+k.Culprit+"|"+k.Config]++
+			if k := matchKnown(known, v, res.Desc.Tree); k != nil {
+				w.KnownHits[k.key()]++
 				continue
 			}
 			sig := v.Sig()
@@ -253,7 +329,7 @@ func cmdWorker(args []string) int {
 				continue
 			}
 			seenSig[sig] = true
-			w.Violations = append(w.Violations, shrinkViolation(p, tier, *prop, *tierS, *seed, i, t.Values(), v, *shrinkBudget))
+			w.Violations = append(w.Violations, shrinkViolation(p, tier, *prop, *tierS, *seed, i, t.Values(), v, *shrinkBudget, known))
 		}
 	}
 	for k := range keys {
@@ -274,29 +350,32 @@ func cmdWorker(args []string) int {
 	return 0
 }
 
-func hasSig(res *props.Result, sig string) *props.Violation {
+// hasSig finds a violation with the given signature that is not a listed
+// known finding (so that shrinking cannot drift from a new violation into a
+// recorded one that happens to share the signature).
+func hasSig(res *props.Result, sig string, known []finding) *props.Violation {
 	if res == nil {
 		return nil
 	}
 	for i := range res.Violations {
-		if res.Violations[i].Sig() == sig {
+		if res.Violations[i].Sig() == sig && matchKnown(known, res.Violations[i], res.Desc.Tree) == nil {
 			return &res.Violations[i]
 		}
 	}
 	return nil
 }
 
-func shrinkViolation(p props.Property, tier props.Tier, prop, tierS string, seed uint64, run int, vals []uint32, v props.Violation, budget int) replayFile {
+func shrinkViolation(p props.Property, tier props.Tier, prop, tierS string, seed uint64, run int, vals []uint32, v props.Violation, budget int, known []finding) replayFile {
 	sig := v.Sig()
 	min, used := tape.Shrink(vals, budget, func(c []uint32) bool {
 		res, trouble := runOne(p, tape.NewReplay(c), tier)
-		return trouble == "" && hasSig(res, sig) != nil
+		return trouble == "" && hasSig(res, sig, known) != nil
 	})
 	// final deterministic re-run of the minimised tape for the description
 	res, _ := runOne(p, tape.NewReplay(min), tier)
 	rf := replayFile{Property: prop, Tier: tierS, VerifSeed: seed, Run: run, Signature: sig, Tape: min,
 		TapeLen0: len(vals), ShrinkUse: used, Violation: v}
-	if vv := hasSig(res, sig); vv != nil {
+	if vv := hasSig(res, sig, known); vv != nil {
 		rf.Violation = *vv
 		rf.Desc = res.Desc
 		rf.LogSHA = res.LogDigest
@@ -343,7 +422,7 @@ func cmdReplay(args []string) int {
 	for _, v := range res.Violations {
 		fmt.Printf("  violation %s\n    where:    %s\n    expected: %s\n    observed: %s\n", v.Sig(), v.Where, v.Expected, v.Observed)
 	}
-	if v := hasSig(res, rf.Signature); v != nil {
+	if v := hasSig(res, rf.Signature, nil); v != nil {
 		same := res.LogDigest == rf.LogSHA
 		fmt.Printf("event_log_sha256 identical: %v\n", same)
 		fmt.Printf("VIOLATION property=%s replay=%s\n", rf.Property, args[0])
@@ -542,9 +621,9 @@ func cmdRun(args []string) int {
 		if k.Status != "known" || k.Property != *prop {
 			continue
 		}
-		hits := total.KnownHits[k.Property+"|"+k.Oracle+"|"+k.Culprit+"|"+k.Config]
-		fmt.Printf("KNOWN-FINDING: property=%s oracle=%s culprit=%s %s (hit %d times in this run)\n", k.Property, k.Oracle, k.Culprit, k.What, hits)
-		knownLines = append(knownLines, fmt.Sprintf("%s|%s|%s: %d hits", k.Oracle, k.Culprit, k.Config, hits))
+		hits := total.KnownHits[k.key()]
+		fmt.Printf("KNOWN-FINDING: property=%s oracle=%s %s (hit %d times in this run)\n", k.Property, k.Oracle, k.What, hits)
+		knownLines = append(knownLines, fmt.Sprintf("%s: %d hits", k.key(), hits))
 	}
 	wall := time.Since(start).Seconds()
 	if *evPath != "" {
